@@ -190,6 +190,9 @@ func (l *List) LRem(key string, count int, value []byte) (int, error) {
 		return 0, ErrListNotFound
 	}
 	size, _ := l.Size(key)
+	if count < -size {
+		count = -size
+	}
 
 	needRemovedNum, err := l.LRemNum(key, count, value)
 	if err != nil {
@@ -261,6 +264,10 @@ func (l *List) LRemNum(key string, count int, value []byte) (int, error) {
 	}
 
 	tempVal := l.Items[key]
+
+	if count < -size {
+		count = -size
+	}
 
 	if count < 0 {
 		count = -count
